@@ -97,6 +97,23 @@ func (env *SEnv) call(e *SExpr) *SVal {
 		n.cur = env.old
 		n.old = env.old
 		return n.eval(e.Args[0])
+	case "withold":
+		// withold(place, e): e evaluated in the current state with the location `place` put back to its entry value
+		if env.old == nil {
+			env.fail("withold() not available here")
+		}
+		pl := env.evalPlace(e.Args[0])
+		if !pl.HasAddr {
+			env.fail("withold: first argument is not a location")
+		}
+		o := *env
+		o.cur = env.old
+		oldv := o.eval(e.Args[0])
+		st2 := env.cur.Clone()
+		u.storeType(st2, pl.Addr, pl.Go, oldv.T)
+		n := *env
+		n.cur = st2
+		return n.eval(e.Args[1])
 	case "len":
 		x := env.eval(e.Args[0])
 		if x.Go == nil {
@@ -312,7 +329,7 @@ func (env *SEnv) callSpec(sf *SpecFn, args []*SExpr) *SVal {
 	if env.depth > 20 {
 		env.fail("spec function expansion too deep (recursive?) at %s", sf.Name)
 	}
-	n := &SEnv{u: u, cur: env.cur, old: env.old, vars: map[string]*SVal{}, depth: env.depth + 1, fn: env.fn, pc: env.pc, noAssume: env.noAssume}
+	n := &SEnv{u: u, cur: env.cur, old: env.old, vars: map[string]*SVal{}, depth: env.depth + 1, fn: env.fn, pc: env.pc, noAssume: env.noAssume, bound: env.bound}
 	for i, p := range sf.Params {
 		n.vars[p.Name] = vals[i]
 	}
